@@ -53,6 +53,9 @@ int c_dateutils_add1month(int * date)
     else
     {
         /* change year */
+        if(date[0] >= 9999)
+            return DATEUTILS_ERROR + __LINE__;
+
         date[1] = 1;
         date[0] += 1;
     }
@@ -94,6 +97,9 @@ int c_dateutils_add1day(int * date)
         else
         {
             /* change year */
+            if(date[0] >= 9999)
+                return DATEUTILS_ERROR + __LINE__;
+
             date[1] = 1;
             date[0] += 1;
             return 0;
@@ -109,6 +115,10 @@ int c_dateutils_add1day(int * date)
 int c_dateutils_getdate(double day, int * date)
 {
     int year, month, nday, nbday;
+
+    /* Expects a date in the form yyyymmdd (also rejects nan) */
+    if(!(day >= 0. && day <= 99991231.))
+        return DATEUTILS_ERROR + __LINE__;
 
     year = (int)(day * 1e-4);
     month = (int)(day * 1e-2) - year * 100;
